@@ -14,6 +14,12 @@ The model contains the code as it is:
   D7  `lock_shared()` parks on `_exclusive_queue`; `unlock()` wakes the whole `_shared_queue` (used only by
       `try_lock_shared_for/until`) or ONE fiber of `_exclusive_queue`, chosen by `GetRandNumber(2)` when both are
       non-empty: parked readers are woken one at a time, by whoever unlocks next.
+
+The flag `fixed` switches on the *proposed repairs* of D5, D6 and D7 together (notes/C18_proposed_patches.diff):
+every wait sits in a `while` that re-evaluates its condition (timed ones with the deadline computed once at the call),
+`lock_shared()` waits on `_shared_queue`, `TimedWaitHelper` ends in `LockHelper()` for an exclusive request, and
+`unlock()` is `_occupied = false; _shared_queue.NotifyAll(); _exclusive_queue.NotifyOne();`.  It is not the code; every
+theorem about the code is stated for `fixed = false`, the theorems for `fixed = true` show the repairs are sufficient.
 -/
 import YaclibModel.Model.FiberSync
 
@@ -26,6 +32,8 @@ inductive Pc where
   | sParked | sWoken                         -- `lock_shared()` on `_exclusive_queue` (D7)
   | txParked (req dl : Nat) | txWoken        -- `try_lock_for/until` on `_exclusive_queue`
   | tsParked (req dl : Nat) | tsWoken        -- `try_lock_shared_for/until` on `_shared_queue`
+  | xLocking | sLocking                      -- (repaired) notified: evaluates the `while` condition again
+  | txLocking (req : Nat) | tsLocking (req : Nat)
   | sleeping (dl : Nat)
   deriving DecidableEq, Repr
 
@@ -35,11 +43,31 @@ def Pc.inEq : Pc → Bool
 def Pc.inSq : Pc → Bool
   | .tsParked _ _ => true | _ => false
 
-def wake : Pc → Pc
-  | .xParked => .xWoken | .sParked => .sWoken | .txParked _ _ => .txWoken | .tsParked _ _ => .tsWoken | p => p
+def Pc.oldWoken : Pc → Bool
+  | .xWoken => true | .sWoken => true | .txWoken => true | .tsWoken => true | _ => false
+
+/-- (repaired) about to re-evaluate the condition of an exclusive / shared request -/
+def Pc.recheckX : Pc → Bool
+  | .xLocking => true | .txLocking _ => true | _ => false
+def Pc.recheckS : Pc → Bool
+  | .sLocking => true | .tsLocking _ => true | _ => false
+
+/-- (repaired) the queues: writers on the exclusive one, readers on the shared one -/
+def Pc.onE : Pc → Bool
+  | .xParked => true | .txParked _ _ => true | _ => false
+def Pc.onS : Pc → Bool
+  | .sParked => true | .tsParked _ _ => true | _ => false
+
+def wake (fixed : Bool) : Pc → Pc
+  | .xParked => if fixed then .xLocking else .xWoken
+  | .sParked => if fixed then .sLocking else .sWoken
+  | .txParked req _ => if fixed then .txLocking req else .txWoken
+  | .tsParked req _ => if fixed then .tsLocking req else .tsWoken
+  | p => p
 
 structure State where
   timed : Bool
+  fixed : Bool                 -- hypothetical: D5, D6, D7 repaired (see header); `false` = the code
   pc : Fid → Pc
   occ : Bool                   -- `_occupied`
   excl : Bool                  -- `_exclusive_mode`
@@ -50,12 +78,13 @@ structure State where
   -- ghost
   xh : List Fid                -- fibers whose last exclusive acquisition succeeded and that have not called `unlock`
   sh : List Fid                -- same for shared / `unlock_shared`
+  transit : List Fid           -- fibers made runnable by a NotifyOne on the exclusive queue that have not run yet
   d5 : Nat                     -- exclusive acquisitions through `TimedWaitHelper` (registered as shared)
   d6 : Nat                     -- acquisitions after a wake-up that found the lock incompatible
 
-def init (timed : Bool) (n : Nat) : State :=
-  { timed := timed, pc := fun g => if g < n then .idle else .done, occ := false, excl := false, cnt := 0, sq := [],
-    eq := [], now := 0, xh := [], sh := [], d5 := 0, d6 := 0 }
+def init (timed fixed : Bool) (n : Nat) : State :=
+  { timed := timed, fixed := fixed, pc := fun g => if g < n then .idle else .done, occ := false, excl := false, cnt := 0,
+    sq := [], eq := [], now := 0, xh := [], sh := [], transit := [], d5 := 0, d6 := 0 }
 
 /-- `_occupied && _exclusive_mode`: what makes `lock_shared` / `try_lock_shared` wait or fail -/
 def XHeld (s : State) : Prop := s.occ = true ∧ s.excl = true
@@ -77,32 +106,35 @@ inductive Label where
   | tsAcq (f : Fid)                                 -- `f E ret try_lock_shared_for 1`
   | tsPark (f : Fid) (t d j : Nat)                  -- `f M sq park_timed 0 @t j=j`
   | tsTimeout (f : Fid) (t : Nat)                   -- `f M sq wake 1 @t`
+  | txRepark (f : Fid) (j : Nat) | tsRepark (f : Fid) (j : Nat)   -- (repaired) `park_timed` again after a wake-up
   | sleepStart (f : Fid) (t d : Nat) | sleepWake (f : Fid) (t : Nat)
   | finish (f : Fid)
   deriving DecidableEq, Repr
 
 /-- `LockHelper()`: `_occupied = true; _exclusive_mode = true` -/
 def lockHelper (s : State) (f : Fid) : State :=
-  { s with occ := true, excl := true, xh := s.xh ++ [f], pc := upd s.pc f .idle }
+  { s with occ := true, excl := true, xh := s.xh ++ [f], pc := upd s.pc f .idle, transit := rm s.transit f }
 
 /-- `SharedLockHelper()`: `_occupied = true; _exclusive_mode = false; _shared_owners_count++` by a shared request -/
 def sharedHelper (s : State) (f : Fid) : State :=
-  { s with occ := true, excl := false, cnt := s.cnt + 1, sh := s.sh ++ [f], pc := upd s.pc f .idle }
+  { s with occ := true, excl := false, cnt := s.cnt + 1, sh := s.sh ++ [f], pc := upd s.pc f .idle,
+           transit := rm s.transit f }
 
 /-- D5: `SharedLockHelper()` by an *exclusive* timed request -/
 def sharedHelperX (s : State) (f : Fid) : State :=
-  { s with occ := true, excl := false, cnt := s.cnt + 1, xh := s.xh ++ [f], pc := upd s.pc f .idle, d5 := s.d5 + 1 }
+  { s with occ := true, excl := false, cnt := s.cnt + 1, xh := s.xh ++ [f], pc := upd s.pc f .idle, d5 := s.d5 + 1,
+           transit := rm s.transit f }
 
 def bumpX (s : State) : Nat := s.d6 + (if s.occ then 1 else 0)
 def bumpS (s : State) : Nat := s.d6 + (if s.occ && s.excl then 1 else 0)
 
 def notifyE (s : State) : Option Fid → State
   | none => s
-  | some g => { s with eq := rm s.eq g, pc := upd s.pc g (wake (s.pc g)) }
+  | some g => { s with eq := rm s.eq g, pc := upd s.pc g (wake s.fixed (s.pc g)), transit := s.transit ++ [g] }
 
 /-- `if (b) _shared_queue.NotifyAll()` -/
 def notifyAllS (b : Bool) (s : State) : State :=
-  { s with sq := if b then [] else s.sq, pc := fun g => if b = true ∧ g ∈ s.sq then wake (s.pc g) else s.pc g }
+  { s with sq := if b then [] else s.sq, pc := fun g => if b = true ∧ g ∈ s.sq then wake s.fixed (s.pc g) else s.pc g }
 
 /-- `const bool unlock_shared = !_shared_queue.Empty() && (_exclusive_queue.Empty() || GetRandNumber(2) == 0)`;
     `coin` = "the draw was 0" (false when nothing was drawn) -/
@@ -131,8 +163,14 @@ def UnlockSPick (s : State) (w : Option Fid) : Prop :=
 instance (s : State) (c : Bool) (w : Option Fid) : Decidable (UnlockPick s c w) := by unfold UnlockPick; exact inferInstance
 instance (s : State) (w : Option Fid) : Decidable (UnlockSPick s w) := by unfold UnlockSPick; exact inferInstance
 
-def parkE (s : State) (f : Fid) (p : Pc) : State := { s with eq := s.eq ++ [f], pc := upd s.pc f p }
-def parkS (s : State) (f : Fid) (p : Pc) : State := { s with sq := s.sq ++ [f], pc := upd s.pc f p }
+def parkE (s : State) (f : Fid) (p : Pc) : State :=
+  { s with eq := s.eq ++ [f], pc := upd s.pc f p, transit := rm s.transit f }
+def parkS (s : State) (f : Fid) (p : Pc) : State :=
+  { s with sq := s.sq ++ [f], pc := upd s.pc f p, transit := rm s.transit f }
+
+/-- (repaired) `unlock()`: `_occupied = false; _shared_queue.NotifyAll(); _exclusive_queue.NotifyOne();` -/
+def doUnlockF (s : State) (f : Fid) (w : Option Fid) : State :=
+  notifyE (notifyAllS true { s with occ := false, xh := s.xh.erase f }) w
 
 inductive Step : State → Label → State → Prop where
   -- lock(): `if (_occupied) { _exclusive_queue.Wait(); } LockHelper();`
@@ -142,11 +180,21 @@ inductive Step : State → Label → State → Prop where
       Step s (.xAcq f) { lockHelper s f with d6 := bumpX s }
   | tryXOk (s : State) (f : Fid) (h : s.pc f = .idle) (ho : s.occ = false) : Step s (.tryX f true) (lockHelper s f)
   | tryXFail (s : State) (f : Fid) (h : s.pc f = .idle) (ho : s.occ = true) : Step s (.tryX f false) s
-  | unlock (s : State) (f : Fid) (coin : Bool) (w : Option Fid) (h : s.pc f = .idle) (hh : f ∈ s.xh)
-      (hc : CoinOk s coin) (hw : UnlockPick s coin w) : Step s (.unlock f coin w) (doUnlock s f coin w)
+  | unlock (s : State) (f : Fid) (coin : Bool) (w : Option Fid) (hx : s.fixed = false) (h : s.pc f = .idle)
+      (hh : f ∈ s.xh) (hc : CoinOk s coin) (hw : UnlockPick s coin w) : Step s (.unlock f coin w) (doUnlock s f coin w)
+  | unlockF (s : State) (f : Fid) (w : Option Fid) (hx : s.fixed = true) (h : s.pc f = .idle) (hh : f ∈ s.xh)
+      (hw : PickOk s.eq w) : Step s (.unlock f false w) (doUnlockF s f w)
+  | xRecheckAcq (s : State) (f : Fid) (h : s.pc f = .xLocking) (ho : s.occ = false) : Step s (.xAcq f) (lockHelper s f)
+  | xRepark (s : State) (f : Fid) (h : s.pc f = .xLocking) (ho : s.occ = true) : Step s (.xPark f) (parkE s f .xParked)
   -- lock_shared(): `if (_occupied && _exclusive_mode) { _exclusive_queue.Wait(); } SharedLockHelper();`
   | sFast (s : State) (f : Fid) (h : s.pc f = .idle) (hx : ¬ XHeld s) : Step s (.sAcq f) (sharedHelper s f)
-  | sPark (s : State) (f : Fid) (h : s.pc f = .idle) (hx : XHeld s) : Step s (.sPark f) (parkE s f .sParked)
+  | sPark (s : State) (f : Fid) (hfx : s.fixed = false) (h : s.pc f = .idle) (hx : XHeld s) :
+      Step s (.sPark f) (parkE s f .sParked)
+  /-- (repaired) on the shared queue -/
+  | sParkF (s : State) (f : Fid) (hfx : s.fixed = true) (h : s.pc f = .idle) (hx : XHeld s) :
+      Step s (.sPark f) (parkS s f .sParked)
+  | sRecheckAcq (s : State) (f : Fid) (h : s.pc f = .sLocking) (hx : ¬ XHeld s) : Step s (.sAcq f) (sharedHelper s f)
+  | sRepark (s : State) (f : Fid) (h : s.pc f = .sLocking) (hx : XHeld s) : Step s (.sPark f) (parkS s f .sParked)
   | sWokenAcq (s : State) (f : Fid) (h : s.pc f = .sWoken) :
       Step s (.sAcq f) { sharedHelper s f with d6 := bumpS s }
   | trySOk (s : State) (f : Fid) (h : s.pc f = .idle) (hx : ¬ XHeld s) : Step s (.tryS f true) (sharedHelper s f)
@@ -154,8 +202,19 @@ inductive Step : State → Label → State → Prop where
   | unlockS (s : State) (f : Fid) (w : Option Fid) (h : s.pc f = .idle) (hh : f ∈ s.sh) (hw : UnlockSPick s w) :
       Step s (.unlockS f w) (doUnlockS s f w)
   -- TimedWaitHelper(timeout, exclusive = true)
-  | txFast (s : State) (f : Fid) (hk : s.timed = true) (h : s.pc f = .idle) (ho : s.occ = false) :
+  | txFast (s : State) (f : Fid) (hk : s.timed = true) (hfx : s.fixed = false) (h : s.pc f = .idle) (ho : s.occ = false) :
       Step s (.txAcq f) (sharedHelperX s f)
+  /-- (repaired) `LockHelper()` for an exclusive request -/
+  | txFastF (s : State) (f : Fid) (hk : s.timed = true) (hfx : s.fixed = true) (h : s.pc f = .idle) (ho : s.occ = false) :
+      Step s (.txAcq f) (lockHelper s f)
+  | txRecheckAcq (s : State) (f : Fid) (req : Nat) (hk : s.timed = true) (h : s.pc f = .txLocking req) (ho : s.occ = false) :
+      Step s (.txAcq f) (lockHelper s f)
+  | txRepark (s : State) (f : Fid) (req j : Nat) (hk : s.timed = true) (h : s.pc f = .txLocking req) (ho : s.occ = true) :
+      Step s (.txRepark f j) (parkE s f (.txParked req (req + j)))
+  | tsRecheckAcq (s : State) (f : Fid) (req : Nat) (hk : s.timed = true) (h : s.pc f = .tsLocking req) (hx : ¬ XHeld s) :
+      Step s (.tsAcq f) (sharedHelper s f)
+  | tsRepark (s : State) (f : Fid) (req j : Nat) (hk : s.timed = true) (h : s.pc f = .tsLocking req) (hx : XHeld s) :
+      Step s (.tsRepark f j) (parkS s f (.tsParked req (req + j)))
   | txPark (s : State) (f : Fid) (t d j : Nat) (hk : s.timed = true) (h : s.pc f = .idle) (ho : s.occ = true)
       (ht : s.now ≤ t) : Step s (.txPark f t d j) { parkE s f (.txParked (t + d) (t + d + j)) with now := t }
   | txWokenAcq (s : State) (f : Fid) (hk : s.timed = true) (h : s.pc f = .txWoken) :
@@ -179,9 +238,9 @@ inductive Step : State → Label → State → Prop where
       Step s (.sleepWake f t) { s with pc := upd s.pc f .idle, now := t }
   | finish (s : State) (f : Fid) (h : s.pc f = .idle) : Step s (.finish f) { s with pc := upd s.pc f .done }
 
-inductive Reachable (timed : Bool) (n : Nat) : State → Prop where
-  | init : Reachable timed n (init timed n)
-  | step {s l s'} : Reachable timed n s → Step s l s' → Reachable timed n s'
+inductive Reachable (timed fixed : Bool) (n : Nat) : State → Prop where
+  | init : Reachable timed fixed n (init timed fixed n)
+  | step {s l s'} : Reachable timed fixed n s → Step s l s' → Reachable timed fixed n s'
 
 def Quiescent (s : State) : Prop := ∀ l s', ¬ Step s l s'
 
@@ -190,21 +249,35 @@ def next (s : State) : Label → Option State
       match s.pc f with
       | .idle => if s.occ = false then some (lockHelper s f) else none
       | .xWoken => some { lockHelper s f with d6 := bumpX s }
+      | .xLocking => if s.occ = false then some (lockHelper s f) else none
       | _ => none
-  | .xPark f => if s.pc f = .idle ∧ s.occ = true then some (parkE s f .xParked) else none
+  | .xPark f =>
+      match s.pc f with
+      | .idle => if s.occ = true then some (parkE s f .xParked) else none
+      | .xLocking => if s.occ = true then some (parkE s f .xParked) else none
+      | _ => none
   | .tryX f ok =>
       if s.pc f = .idle then
         if ok then (if s.occ = false then some (lockHelper s f) else none)
         else (if s.occ = true then some s else none)
       else none
   | .unlock f coin w =>
-      if s.pc f = .idle ∧ f ∈ s.xh ∧ CoinOk s coin ∧ UnlockPick s coin w then some (doUnlock s f coin w) else none
+      if s.fixed = false then
+        (if s.pc f = .idle ∧ f ∈ s.xh ∧ CoinOk s coin ∧ UnlockPick s coin w then some (doUnlock s f coin w) else none)
+      else
+        (if s.pc f = .idle ∧ f ∈ s.xh ∧ coin = false ∧ PickOk s.eq w then some (doUnlockF s f w) else none)
   | .sAcq f =>
       match s.pc f with
       | .idle => if ¬ XHeld s then some (sharedHelper s f) else none
       | .sWoken => some { sharedHelper s f with d6 := bumpS s }
+      | .sLocking => if ¬ XHeld s then some (sharedHelper s f) else none
       | _ => none
-  | .sPark f => if s.pc f = .idle ∧ XHeld s then some (parkE s f .sParked) else none
+  | .sPark f =>
+      match s.pc f with
+      | .idle =>
+          if XHeld s then (if s.fixed = false then some (parkE s f .sParked) else some (parkS s f .sParked)) else none
+      | .sLocking => if XHeld s then some (parkS s f .sParked) else none
+      | _ => none
   | .tryS f ok =>
       if s.pc f = .idle then
         if ok then (if ¬ XHeld s then some (sharedHelper s f) else none)
@@ -214,8 +287,22 @@ def next (s : State) : Label → Option State
   | .txAcq f =>
       if s.timed = true then
         match s.pc f with
-        | .idle => if s.occ = false then some (sharedHelperX s f) else none
+        | .idle =>
+            if s.occ = false then (if s.fixed = false then some (sharedHelperX s f) else some (lockHelper s f)) else none
         | .txWoken => some { sharedHelperX s f with d6 := bumpX s }
+        | .txLocking _ => if s.occ = false then some (lockHelper s f) else none
+        | _ => none
+      else none
+  | .txRepark f j =>
+      if s.timed = true then
+        match s.pc f with
+        | .txLocking req => if s.occ = true then some (parkE s f (.txParked req (req + j))) else none
+        | _ => none
+      else none
+  | .tsRepark f j =>
+      if s.timed = true then
+        match s.pc f with
+        | .tsLocking req => if XHeld s then some (parkS s f (.tsParked req (req + j))) else none
         | _ => none
       else none
   | .txPark f t d j =>
@@ -233,6 +320,7 @@ def next (s : State) : Label → Option State
         match s.pc f with
         | .idle => if ¬ XHeld s then some (sharedHelper s f) else none
         | .tsWoken => some { sharedHelper s f with d6 := bumpS s }
+        | .tsLocking _ => if ¬ XHeld s then some (sharedHelper s f) else none
         | _ => none
       else none
   | .tsPark f t d j =>
@@ -261,10 +349,18 @@ theorem next_sound {s : State} {l : Label} {s' : State} (h : next s l = some s')
         · rename_i ho; cases h; exact .xFast s f hp ho
         · cases h
       · rename_i hp; cases h; exact .xWokenAcq s f hp
+      · rename_i hp; split at h
+        · rename_i ho; cases h; exact .xRecheckAcq s f hp ho
+        · cases h
       · cases h
   | xPark f =>
       simp only [next] at h; split at h
-      · rename_i hg; cases h; exact .xPark s f hg.1 hg.2
+      · rename_i hp; split at h
+        · rename_i ho; cases h; exact .xPark s f hp ho
+        · cases h
+      · rename_i hp; split at h
+        · rename_i ho; cases h; exact .xRepark s f hp ho
+        · cases h
       · cases h
   | tryX f ok =>
       simp only [next] at h; split at h
@@ -278,18 +374,34 @@ theorem next_sound {s : State} {l : Label} {s' : State} (h : next s l = some s')
       · cases h
   | unlock f coin w =>
       simp only [next] at h; split at h
-      · rename_i hg; cases h; exact .unlock s f coin w hg.1 hg.2.1 hg.2.2.1 hg.2.2.2
-      · cases h
+      · rename_i hx; split at h
+        · rename_i hg; cases h; exact .unlock s f coin w hx hg.1 hg.2.1 hg.2.2.1 hg.2.2.2
+        · cases h
+      · rename_i hx; split at h
+        · rename_i hg; cases h
+          have hc := hg.2.2.1; subst hc
+          exact .unlockF s f w (by cases hf : s.fixed <;> simp_all) hg.1 hg.2.1 hg.2.2.2
+        · cases h
   | sAcq f =>
       simp only [next] at h; split at h
       · rename_i hp; split at h
         · rename_i hx; cases h; exact .sFast s f hp hx
         · cases h
       · rename_i hp; cases h; exact .sWokenAcq s f hp
+      · rename_i hp; split at h
+        · rename_i hx; cases h; exact .sRecheckAcq s f hp hx
+        · cases h
       · cases h
   | sPark f =>
       simp only [next] at h; split at h
-      · rename_i hg; cases h; exact .sPark s f hg.1 hg.2
+      · rename_i hp; split at h
+        · rename_i hx; split at h
+          · rename_i hfx; cases h; exact .sPark s f hfx hp hx
+          · rename_i hfx; cases h; exact .sParkF s f (by cases hf : s.fixed <;> simp_all) hp hx
+        · cases h
+      · rename_i hp; split at h
+        · rename_i hx; cases h; exact .sRepark s f hp hx
+        · cases h
       · cases h
   | tryS f ok =>
       simp only [next] at h; split at h
@@ -309,9 +421,30 @@ theorem next_sound {s : State} {l : Label} {s' : State} (h : next s l = some s')
       simp only [next] at h; split at h
       · rename_i hk; split at h
         · rename_i hp; split at h
-          · rename_i ho; cases h; exact .txFast s f hk hp ho
+          · rename_i ho; split at h
+            · rename_i hfx; cases h; exact .txFast s f hk hfx hp ho
+            · rename_i hfx; cases h; exact .txFastF s f hk (by cases hf : s.fixed <;> simp_all) hp ho
           · cases h
         · rename_i hp; cases h; exact .txWokenAcq s f hk hp
+        · rename_i req hp; split at h
+          · rename_i ho; cases h; exact .txRecheckAcq s f req hk hp ho
+          · cases h
+        · cases h
+      · cases h
+  | txRepark f j =>
+      simp only [next] at h; split at h
+      · rename_i hk; split at h
+        · rename_i req hp; split at h
+          · rename_i ho; cases h; exact .txRepark s f req j hk hp ho
+          · cases h
+        · cases h
+      · cases h
+  | tsRepark f j =>
+      simp only [next] at h; split at h
+      · rename_i hk; split at h
+        · rename_i req hp; split at h
+          · rename_i hx; cases h; exact .tsRepark s f req j hk hp hx
+          · cases h
         · cases h
       · cases h
   | txPark f t d j =>
@@ -333,6 +466,9 @@ theorem next_sound {s : State} {l : Label} {s' : State} (h : next s l = some s')
           · rename_i hx; cases h; exact .tsFast s f hk hp hx
           · cases h
         · rename_i hp; cases h; exact .tsWokenAcq s f hk hp
+        · rename_i req hp; split at h
+          · rename_i hx; cases h; exact .tsRecheckAcq s f req hk hp hx
+          · cases h
         · cases h
       · cases h
   | tsPark f t d j =>
